@@ -14,6 +14,8 @@ ACT = {
     "busy": "x = 0\nwhile 1:\n    x += 1",
     "sleeping": "import time\ntime.sleep(1000)",
     "swallow": "import time\nwhile 1:\n    try:\n        while 1:\n            time.sleep(0.05)\n    except KeyboardInterrupt:\n        pass",
+    # the same with the worker's standard streams gone (closed / None / write-only): nothing on the way to os._exit may need them
+    "swallow_nostdio": "import sys, os, time\nsys.stderr.close()\nsys.stdout = None\nos.close(2)\nwhile 1:\n    try:\n        while 1:\n            time.sleep(0.05)\n    except KeyboardInterrupt:\n        pass",
     "threads": "import threading, time\nfor i in range(3):\n    t = threading.Thread(target=time.sleep, args=(1000,))\n    t.daemon = True\n    t.start()\nchannel.receive()",
     "nonmain_busy": "import time\nchannel.send('started')\ntime.sleep(1000)",
     "lockholder": "import time\nc = channel.gateway.newchannel()\nchannel.send(c)\nwhile c._items.qsize() == 0:\n    time.sleep(0.01)\nc.setcallback(lambda x: time.sleep(1000))",
